@@ -17,6 +17,7 @@ import (
 	"runtime/debug"
 	"sort"
 	"strings"
+	"time"
 
 	"github.com/trzsz/trzsz-go/trzsz"
 )
@@ -298,7 +299,7 @@ func (a *c15AllWriter) Write(p []byte) (int, error) {
 
 // c15WriteMode feeds segments to a real archive writer rooted in a fresh directory and
 // returns class|tree and the segments (byte values) the writer was actually handed.
-func c15WriteMode(c *ctx, tmp string, seq *int, rootSource string, segs [][]byte, sample func(), mode int) (string, [][]byte) {
+func c15WriteMode(c *ctx, tmp string, seq *int, rootSource string, segs [][]byte, sample func(), mode int) (res string, actual [][]byte) {
 	*seq++
 	dest := filepath.Join(tmp, fmt.Sprintf("dst%d", *seq))
 	if err := os.Mkdir(dest, 0755); err != nil {
@@ -307,10 +308,20 @@ func c15WriteMode(c *ctx, tmp string, seq *int, rootSource string, segs [][]byte
 	defer os.RemoveAll(dest)
 	w, name, err := trzsz.VerifNewArchiveWriter(dest, rootSource)
 	if err != nil {
-		panic(err)
+		return "nowriter:err|-", segs
+	}
+	if w == nil {
+		// the receiver did not open an archive writer for this NAME record (the flag is off)
+		return "nowriter|" + c15CanonDisk(filepath.Join(dest, name)), segs
 	}
 	class := "ok"
 	seen := segs
+	defer func() {
+		// a real function that panics on a case is an observation, not a harness crash
+		if r := recover(); r != nil {
+			res, actual = "panic:"+fmt.Sprint(r)+"|"+c15CanonDisk(filepath.Join(dest, name)), seen
+		}
+	}()
 	switch mode {
 	case c15Plain:
 		for _, s := range segs {
@@ -510,7 +521,11 @@ func genArchive(c *ctx) {
 
 	// ---- one full round trip: scan, read with (sizes, dflt), write with nWrites independent
 	// segmentations; direct oracles on the implementation
+	var roundTripBody func(nodes []c15Node, kind string, dflts []int, nWrites int)
 	roundTrip := func(nodes []c15Node, kind string, dflts []int, nWrites int) {
+		c15Case(c, kind, c15CanonNodes(nodes), func() { roundTripBody(nodes, kind, dflts, nWrites) })
+	}
+	roundTripBody = func(nodes []c15Node, kind string, dflts []int, nWrites int) {
 		root := newSrc(nodes)
 		_, rd, rows, rootSrc := scan(root)
 		if len(rows) == 0 {
@@ -594,6 +609,13 @@ func genArchive(c *ctx) {
 			}
 			c.count(fmt.Sprintf("writer:mode:%s", []string{"plain", "reused-buffer", "copybuffer+bufio"}[mode]))
 			res, seen := c15WriteMode(c, tmp, &seq, rootSrc, segs, nil, mode)
+			if strings.HasPrefix(res, "nowriter") {
+				// the sender streams an archive for this root (it has entries) but the NAME record it
+				// produces does not make the receiver open an archive writer: the entries are lost
+				c.violate("mode-disagree:"+c15Shape(nodes), "the sender streams an archive for a root whose NAME record does not make the receiver open an archive writer",
+					fmt.Sprintf("%s tree=%s entries=%d NAME=%s receiver=%s", key, want, len(rows), rootSrc, res))
+				break
+			}
 			inH, atB := c.c15CountCuts(seen, bounds)
 			c.emit(inH || atB, "aw_write", res, tbl, hxs(seen))
 			if res != "ok|"+want {
@@ -645,165 +667,173 @@ func genArchive(c *ctx) {
 		{{rel: []string{"中"}, data: []byte{'\n'}}, {rel: []string{"q"}, data: []byte("12")}},
 	}
 	for ti, nodes := range tiny {
-		root := newSrc(nodes)
-		_, rd, rows, rootSrc := scan(root)
-		tbl := c15Table(rows)
-		outs, end := c15Read(rd, nil, 1<<16, nil)
-		rd.Close()
-		stream := c15Concat(outs)
-		if end != "eof" {
-			panic("tiny tree reader: " + end)
-		}
-		want := "ok|" + c15CanonNodes(nodes)
-		bounds := c15BoundsOf(rows)
-		var pos []int
-		for _, b := range bounds {
-			pos = append(pos, b.start+1, b.nl, b.nl+1)
-			for x := b.nl + 2; x <= b.end; x++ {
-				pos = append(pos, x)
+		c15Case(c, "tiny", fmt.Sprint(ti), func() {
+			root := newSrc(nodes)
+			_, rd, rows, rootSrc := scan(root)
+			tbl := c15Table(rows)
+			outs, end := c15Read(rd, nil, 1<<16, nil)
+			rd.Close()
+			stream := c15Concat(outs)
+			if end != "eof" {
+				panic("tiny tree reader: " + end)
 			}
-		}
-		sort.Ints(pos)
-		var uniq []int
-		for _, x := range pos {
-			if x > 0 && x < len(stream) && (len(uniq) == 0 || uniq[len(uniq)-1] != x) {
-				uniq = append(uniq, x)
-			}
-		}
-		limit := c.pick(10, 14)
-		// a different window of positions for each tier/tree keeps all of them covered over time
-		for len(uniq) > limit {
-			i := c.rng.Intn(len(uniq))
-			uniq = append(uniq[:i], uniq[i+1:]...)
-		}
-		check := func(segs [][]byte) {
-			inH, atB := c.c15CountCuts(segs, bounds)
-			res := c15Write(tmp, &seq, rootSrc, segs, nil)
-			c.emit(inH || atB, "aw_write", res, tbl, hxs(segs))
-			if res != want {
-				c.violate(c15TreeKey(tmp, &seq, rootSrc, segs, want, c15Reused), "the tree written from the archive stream differs from the source tree",
-					fmt.Sprintf("tiny#%d mode=reused-buffer table=%s segs=%s got=%s want=%s", ti, tbl, hxs(segs), res, want))
-			}
-		}
-		for mask := 0; mask < 1<<len(uniq); mask++ {
-			var cuts []int
-			for i, x := range uniq {
-				if mask&(1<<i) != 0 {
-					cuts = append(cuts, x)
+			want := "ok|" + c15CanonNodes(nodes)
+			bounds := c15BoundsOf(rows)
+			var pos []int
+			for _, b := range bounds {
+				pos = append(pos, b.start+1, b.nl, b.nl+1)
+				for x := b.nl + 2; x <= b.end; x++ {
+					pos = append(pos, x)
 				}
 			}
-			check(c15CutAt(stream, cuts))
-		}
-		c.count("tiny:subsets-of-positions")
-		for x := 1; x < len(stream); x++ { // every single cut
-			check(c15CutAt(stream, []int{x}))
-		}
-		check(c.split(stream, 1)) // one byte at a time
-		// every pair of read sizes 1..4 x dflt for the reader on the same tree
-		for s1 := 1; s1 <= 4; s1++ {
-			for _, dflt := range []int{1, 2, 5, 64} {
-				_, rd, _, _ := scan(root)
-				o, e := c15Read(rd, []int{s1, 5 - s1}, dflt, nil)
-				rd.Close()
-				c.emit(true, "ar_read", hxs(o)+":"+e, tbl, ints([]int{s1, 5 - s1}), fmt.Sprint(dflt))
+			sort.Ints(pos)
+			var uniq []int
+			for _, x := range pos {
+				if x > 0 && x < len(stream) && (len(uniq) == 0 || uniq[len(uniq)-1] != x) {
+					uniq = append(uniq, x)
+				}
 			}
-		}
+			limit := c.pick(10, 14)
+			// a different window of positions for each tier/tree keeps all of them covered over time
+			for len(uniq) > limit {
+				i := c.rng.Intn(len(uniq))
+				uniq = append(uniq[:i], uniq[i+1:]...)
+			}
+			check := func(segs [][]byte) {
+				inH, atB := c.c15CountCuts(segs, bounds)
+				res := c15Write(tmp, &seq, rootSrc, segs, nil)
+				c.emit(inH || atB, "aw_write", res, tbl, hxs(segs))
+				if res != want {
+					c.violate(c15TreeKey(tmp, &seq, rootSrc, segs, want, c15Reused), "the tree written from the archive stream differs from the source tree",
+						fmt.Sprintf("tiny#%d mode=reused-buffer table=%s segs=%s got=%s want=%s", ti, tbl, hxs(segs), res, want))
+				}
+			}
+			for mask := 0; mask < 1<<len(uniq); mask++ {
+				var cuts []int
+				for i, x := range uniq {
+					if mask&(1<<i) != 0 {
+						cuts = append(cuts, x)
+					}
+				}
+				check(c15CutAt(stream, cuts))
+			}
+			c.count("tiny:subsets-of-positions")
+			for x := 1; x < len(stream); x++ { // every single cut
+				check(c15CutAt(stream, []int{x}))
+			}
+			check(c.split(stream, 1)) // one byte at a time
+			// every pair of read sizes 1..4 x dflt for the reader on the same tree
+			for s1 := 1; s1 <= 4; s1++ {
+				for _, dflt := range []int{1, 2, 5, 64} {
+					_, rd, _, _ := scan(root)
+					o, e := c15Read(rd, []int{s1, 5 - s1}, dflt, nil)
+					rd.Close()
+					c.emit(true, "ar_read", hxs(o)+":"+e, tbl, ints([]int{s1, 5 - s1}), fmt.Sprint(dflt))
+				}
+			}
+		})
 	}
 
 	// 5. a source file changes length between scan and read
 	for i := 0; i < c.pick(60, 800); i++ {
-		nodes := c15GenTree(c, 3, 4, small)
-		var files []int
-		for j, n := range nodes {
-			if !n.dir && len(n.data) > 0 {
-				files = append(files, j)
-			}
-		}
-		if len(files) == 0 {
-			continue
-		}
-		root := newSrc(nodes)
-		a, rd, _, rootSrc := scan(root)
-		victim := nodes[files[c.rng.Intn(len(files))]]
-		vp := filepath.Join(append([]string{root}, victim.rel...)...)
-		shrink := c.rng.Intn(3) != 0
-		if shrink {
-			if err := os.Truncate(vp, int64(c.rng.Intn(len(victim.data)))); err != nil {
-				panic(err)
-			}
-		} else {
-			f, _ := os.OpenFile(vp, os.O_APPEND|os.O_WRONLY, 0)
-			f.Write(bytes.Repeat([]byte{'+'}, 1+c.rng.Intn(40)))
-			f.Close()
-		}
-		rows := c15Rows(a) // data as it is now
-		tbl := c15Table(rows)
-		dflt := []int{1, 3, 16, 64, 32768}[c.rng.Intn(5)]
-		sizes := c.c15Sizes(c.rng.Intn(4), []int{1, 2, 5, 50})
-		outs, end := c15Read(rd, sizes, dflt, nil)
-		rd.Close()
-		c.emit(true, "ar_read", hxs(outs)+":"+end, tbl, ints(sizes), fmt.Sprint(dflt))
-		if shrink {
-			c.count("change:shrink")
-			if end != "err:shrink" {
-				c.violate("shrink-not-reported", "a source file shorter than announced was not reported as an error",
-					fmt.Sprintf("table=%s sizes=%s dflt=%d end=%s", tbl, ints(sizes), dflt, end))
-			}
-		} else {
-			c.count("change:grow")
-			// only the announced prefix is sent; the destination equals the tree as scanned
-			gsegs := c.split(c15Concat(outs), 40)
-			res := c15Write(tmp, &seq, rootSrc, gsegs, nil)
-			if want := "ok|" + c15CanonNodes(nodes); end != "eof" || res != want {
-				gkey := "grow-shifts"
-				if end == "eof" && c15TreeKey(tmp, &seq, rootSrc, gsegs, want, c15Reused) != "roundtrip-tree" {
-					gkey = "roundtrip-tree:reused-buffer" // the reader was fine; the writer kept the caller's slice
+		c15Case(c, "length-change", fmt.Sprint(i), func() {
+			nodes := c15GenTree(c, 3, 4, small)
+			var files []int
+			for j, n := range nodes {
+				if !n.dir && len(n.data) > 0 {
+					files = append(files, j)
 				}
-				c.violate(gkey, "a source file that grew after the scan corrupted the archive",
-					fmt.Sprintf("table=%s end=%s segs=%s got=%s", tbl, end, hxs(gsegs), res))
 			}
-		}
+			if len(files) == 0 {
+				return
+			}
+			root := newSrc(nodes)
+			a, rd, _, rootSrc := scan(root)
+			victim := nodes[files[c.rng.Intn(len(files))]]
+			vp := filepath.Join(append([]string{root}, victim.rel...)...)
+			shrink := c.rng.Intn(3) != 0
+			if shrink {
+				if err := os.Truncate(vp, int64(c.rng.Intn(len(victim.data)))); err != nil {
+					panic(err)
+				}
+			} else {
+				f, _ := os.OpenFile(vp, os.O_APPEND|os.O_WRONLY, 0)
+				f.Write(bytes.Repeat([]byte{'+'}, 1+c.rng.Intn(40)))
+				f.Close()
+			}
+			rows := c15Rows(a) // data as it is now
+			tbl := c15Table(rows)
+			dflt := []int{1, 3, 16, 64, 32768}[c.rng.Intn(5)]
+			sizes := c.c15Sizes(c.rng.Intn(4), []int{1, 2, 5, 50})
+			outs, end := c15Read(rd, sizes, dflt, nil)
+			rd.Close()
+			c.emit(true, "ar_read", hxs(outs)+":"+end, tbl, ints(sizes), fmt.Sprint(dflt))
+			if shrink {
+				c.count("change:shrink")
+				if end != "err:shrink" {
+					c.violate("shrink-not-reported", "a source file shorter than announced was not reported as an error",
+						fmt.Sprintf("table=%s sizes=%s dflt=%d end=%s", tbl, ints(sizes), dflt, end))
+				}
+			} else {
+				c.count("change:grow")
+				// only the announced prefix is sent; the destination equals the tree as scanned
+				gsegs := c.split(c15Concat(outs), 40)
+				res := c15Write(tmp, &seq, rootSrc, gsegs, nil)
+				if want := "ok|" + c15CanonNodes(nodes); end != "eof" || res != want {
+					gkey := "grow-shifts"
+					if strings.HasPrefix(res, "nowriter") {
+						gkey = "mode-disagree:" + c15Shape(nodes) // not about the growth: the receiver opened no archive writer
+					} else if end == "eof" && c15TreeKey(tmp, &seq, rootSrc, gsegs, want, c15Reused) != "roundtrip-tree" {
+						gkey = "roundtrip-tree:reused-buffer" // the reader was fine; the writer kept the caller's slice
+					}
+					c.violate(gkey, "a source file that grew after the scan corrupted the archive",
+						fmt.Sprintf("table=%s end=%s segs=%s got=%s", tbl, end, hxs(gsegs), res))
+				}
+			}
+		})
 	}
 
 	// 6. reader on explicit entries: directory sizes != 0, announced sizes below / above the
 	// real length, zero announced for a non-empty file
 	for i := 0; i < c.pick(80, 1200); i++ {
-		nodes := c15GenTree(c, 2, 4, []int{0, 1, 2, 5, 30, 70})
-		if len(nodes) == 0 {
-			continue
-		}
-		root := newSrc(nodes)
-		var es []trzsz.VerifArchiveEntry
-		for _, n := range nodes {
-			e := trzsz.VerifArchiveEntry{RelPath: append([]string{"r"}, n.rel...), IsDir: n.dir,
-				AbsPath: filepath.Join(append([]string{root}, n.rel...)...), Size: int64(len(n.data))}
-			switch c.rng.Intn(6) {
-			case 0:
-				if n.dir {
-					e.Size = int64(c.rng.Intn(5000))
-				} else {
-					e.Size = int64(c.rng.Intn(len(n.data) + 3))
-				}
-			case 1:
-				if !n.dir {
-					e.Size = 0
-				}
+		c15Case(c, "explicit-entries", fmt.Sprint(i), func() {
+			nodes := c15GenTree(c, 2, 4, []int{0, 1, 2, 5, 30, 70})
+			if len(nodes) == 0 {
+				return
 			}
-			es = append(es, e)
-		}
-		a := trzsz.VerifArchiveFromEntries("r", 0, es)
-		rd, err := a.NewReader()
-		if err != nil {
-			panic(err)
-		}
-		tbl := c15Table(c15Rows(a))
-		dflt := []int{1, 2, 7, 64, 32768}[c.rng.Intn(5)]
-		sizes := c.c15Sizes(c.rng.Intn(4), []int{1, 2, 3, 9})
-		outs, end := c15Read(rd, sizes, dflt, nil)
-		c.emit(true, "ar_read", hxs(outs)+":"+end, tbl, ints(sizes), fmt.Sprint(dflt))
-		c.emit(true, "ar_size", fmt.Sprint(rd.VerifSize()), tbl)
-		rd.Close()
-		c.count("reader:explicit-entries:" + strings.SplitN(end, ":", 2)[0])
+			root := newSrc(nodes)
+			var es []trzsz.VerifArchiveEntry
+			for _, n := range nodes {
+				e := trzsz.VerifArchiveEntry{RelPath: append([]string{"r"}, n.rel...), IsDir: n.dir,
+					AbsPath: filepath.Join(append([]string{root}, n.rel...)...), Size: int64(len(n.data))}
+				switch c.rng.Intn(6) {
+				case 0:
+					if n.dir {
+						e.Size = int64(c.rng.Intn(5000))
+					} else {
+						e.Size = int64(c.rng.Intn(len(n.data) + 3))
+					}
+				case 1:
+					if !n.dir {
+						e.Size = 0
+					}
+				}
+				es = append(es, e)
+			}
+			a := trzsz.VerifArchiveFromEntries("r", 0, es)
+			rd, err := a.NewReader()
+			if err != nil {
+				panic(err)
+			}
+			tbl := c15Table(c15Rows(a))
+			dflt := []int{1, 2, 7, 64, 32768}[c.rng.Intn(5)]
+			sizes := c.c15Sizes(c.rng.Intn(4), []int{1, 2, 3, 9})
+			outs, end := c15Read(rd, sizes, dflt, nil)
+			c.emit(true, "ar_read", hxs(outs)+":"+end, tbl, ints(sizes), fmt.Sprint(dflt))
+			c.emit(true, "ar_size", fmt.Sprint(rd.VerifSize()), tbl)
+			rd.Close()
+			c.count("reader:explicit-entries:" + strings.SplitN(end, ":", 2)[0])
+		})
 	}
 
 	// 7. writer on hand-made / damaged streams: junk headers, truncated streams, payload
@@ -812,66 +842,95 @@ func genArchive(c *ctx) {
 	rootName := "r"
 	rootSrcJS, _ := json.Marshal(c15Hdr{RelPath: []string{rootName}, IsDir: true, Archive: true})
 	for i := 0; i < c.pick(400, 6000); i++ {
-		n := 1 + c.rng.Intn(5)
-		var rows []c15Row
-		var stream []byte
-		names := []string{"a", "b", "c", "ü"}
-		for j := 0; j < n; j++ {
-			var rel []string
-			for d := c.rng.Intn(4); d > 0; d-- {
-				rel = append(rel, names[c.rng.Intn(len(names))])
-			}
-			dir := c.rng.Intn(3) == 0
-			sz := int64(c.rng.Intn(6))
-			switch c.rng.Intn(10) {
-			case 0:
-				sz = -int64(c.rng.Intn(4))
-			case 1:
-				if dir {
-					sz = int64(c.rng.Intn(5000))
+		c15Case(c, "damaged-stream", fmt.Sprint(i), func() {
+			n := 1 + c.rng.Intn(5)
+			var rows []c15Row
+			var stream []byte
+			names := []string{"a", "b", "c", "ü"}
+			for j := 0; j < n; j++ {
+				var rel []string
+				for d := c.rng.Intn(4); d > 0; d-- {
+					rel = append(rel, names[c.rng.Intn(len(names))])
+				}
+				dir := c.rng.Intn(3) == 0
+				sz := int64(c.rng.Intn(6))
+				switch c.rng.Intn(10) {
+				case 0:
+					sz = -int64(c.rng.Intn(4))
+				case 1:
+					if dir {
+						sz = int64(c.rng.Intn(5000))
+					}
+				}
+				h := c15MakeHeader(rootName, rel, dir, sz)
+				if c.rng.Intn(25) == 0 {
+					h = []string{"", "AAAA", "eJw=", "not base64!", h[:len(h)/2], trzsz.VerifEncodeString("{\"path_name\":[]}"), trzsz.VerifEncodeString("[1]")}[c.rng.Intn(7)]
+				}
+				if r := c15RowOfLine(h); r != nil {
+					rows = append(rows, *r)
+				} else {
+					c.count("writer:junk-header")
+				}
+				stream = append(stream, h...)
+				stream = append(stream, '\n')
+				plen := int(sz)
+				if dir || plen < 0 {
+					plen = 0
+				}
+				switch c.rng.Intn(12) {
+				case 0:
+					plen += 1 + c.rng.Intn(3)
+					c.count("writer:payload-longer")
+				case 1:
+					if plen > 0 {
+						plen = c.rng.Intn(plen)
+						c.count("writer:payload-shorter")
+					}
+				}
+				for k := 0; k < plen; k++ {
+					stream = append(stream, "xy\nz"[c.rng.Intn(4)])
 				}
 			}
-			h := c15MakeHeader(rootName, rel, dir, sz)
-			if c.rng.Intn(25) == 0 {
-				h = []string{"", "AAAA", "eJw=", "not base64!", h[:len(h)/2], trzsz.VerifEncodeString("{\"path_name\":[]}"), trzsz.VerifEncodeString("[1]")}[c.rng.Intn(7)]
+			if c.rng.Intn(5) == 0 && len(stream) > 1 {
+				stream = stream[:1+c.rng.Intn(len(stream)-1)]
+				c.count("writer:truncated-stream")
 			}
-			if r := c15RowOfLine(h); r != nil {
-				rows = append(rows, *r)
-			} else {
-				c.count("writer:junk-header")
-			}
-			stream = append(stream, h...)
-			stream = append(stream, '\n')
-			plen := int(sz)
-			if dir || plen < 0 {
-				plen = 0
-			}
-			switch c.rng.Intn(12) {
-			case 0:
-				plen += 1 + c.rng.Intn(3)
-				c.count("writer:payload-longer")
-			case 1:
-				if plen > 0 {
-					plen = c.rng.Intn(plen)
-					c.count("writer:payload-shorter")
-				}
-			}
-			for k := 0; k < plen; k++ {
-				stream = append(stream, "xy\nz"[c.rng.Intn(4)])
-			}
-		}
-		if c.rng.Intn(5) == 0 && len(stream) > 1 {
-			stream = stream[:1+c.rng.Intn(len(stream)-1)]
-			c.count("writer:truncated-stream")
-		}
-		segs := c.split(stream, []int{1, 3, 10, 60, 400}[c.rng.Intn(5)])
-		res := c15Write(tmp, &seq, string(rootSrcJS), segs, nil)
-		c.count("writer:damaged:" + strings.SplitN(res, "|", 2)[0])
-		c.emit(true, "aw_write", res, c15Table(rows), hxs(segs))
+			segs := c.split(stream, []int{1, 3, 10, 60, 400}[c.rng.Intn(5)])
+			res := c15Write(tmp, &seq, string(rootSrcJS), segs, nil)
+			c.count("writer:damaged:" + strings.SplitN(res, "|", 2)[0])
+			c.emit(true, "aw_write", res, c15Table(rows), hxs(segs))
+		})
 	}
 
 	// 8. descriptors: 300+ entries, GC off so that finalizers cannot hide a leak
-	c15FdRun(c, tmp, &seq)
+	c15Case(c, "descriptors", "flat tree of 300+ entries", func() { c15FdRun(c, tmp, &seq) })
+
+	// 9. who decides "archive": zero-, one- and many-entry roots through the real scan, grouping,
+	// NAME record, sender's and receiver's next step; whole transfers in process and through
+	// the real binaries
+	c15Mode(c, tmp)
+}
+
+// c15Case runs one case of the generator: a real function that panics or does not return
+// on it is an observation about the implementation (a violation with the case), never a
+// crash or a hang of the harness.
+func c15Case(c *ctx, kind, desc string, f func()) {
+	done := make(chan any, 1)
+	go func() {
+		defer func() { done <- recover() }()
+		f()
+	}()
+	select {
+	case r := <-done:
+		if r != nil {
+			if len(desc) > 4000 {
+				desc = desc[:4000] + "..."
+			}
+			c.violate("case-panic:"+kind, "a real function panicked on this case", fmt.Sprintf("%s case=%s panic=%v", kind, desc, r))
+		}
+	case <-time.After(120 * time.Second):
+		c.violate("case-hang:"+kind, "a real function did not return on this case", fmt.Sprintf("%s case=%s", kind, desc))
+	}
 }
 
 func c15FdRun(c *ctx, tmp string, seq *int) {
@@ -952,5 +1011,415 @@ func c15FdRun(c *ctx, tmp string, seq *int) {
 		c.violate("writer-fd-growth", "archive writer: open descriptors grow with the entry count (previous entry's file is not closed)", detail)
 	} else if wafter != wbase {
 		c.violate("writer-fd-left-open", "archive writer: a descriptor is still open after Close", detail)
+	}
+}
+
+// ---------------------------------------------------------------------------------------
+// who decides "archive" (Model/ArchiveMode.v)
+
+// c15Shape names the shape of a root by the number of entries below it.
+func c15Shape(nodes []c15Node) string {
+	switch len(nodes) {
+	case 0:
+		return "zero-entry"
+	case 1:
+		switch {
+		case nodes[0].dir:
+			return "one-empty-dir"
+		case len(nodes[0].data) == 0:
+			return "one-empty-file"
+		}
+		return "one-file"
+	}
+	chain := true
+	for i, n := range nodes {
+		if len(n.rel) != i+1 || (i < len(nodes)-1 && !n.dir) {
+			chain = false
+		}
+	}
+	if chain {
+		if nodes[len(nodes)-1].dir {
+			return "chain-of-dirs"
+		}
+		return "chain-to-file"
+	}
+	if len(nodes) == 2 {
+		return "two-entries"
+	}
+	return "many-entries"
+}
+
+type c15ModeSrc struct {
+	name   string
+	file   []byte // a plain file (nodes unused) when isFile
+	isFile bool
+	nodes  []c15Node // a directory root with these entries below it
+}
+
+func (m c15ModeSrc) shape() string {
+	if m.isFile {
+		return "plain-file"
+	}
+	return c15Shape(m.nodes)
+}
+
+type c15ModeCase struct {
+	srcs      []c15ModeSrc
+	overwrite bool
+	proto     int
+	dir       string
+	paths     []string
+	scan      []trzsz.VerifModeSrc
+	steps     []trzsz.VerifModeStep
+	planPanic string
+	pair      trzsz.VerifPairResult
+	pairDiffs []string
+	failing   string
+	pairPanic string
+}
+
+func (mc *c15ModeCase) shapes() string {
+	var s []string
+	for _, x := range mc.srcs {
+		s = append(s, x.shape())
+	}
+	return strings.Join(s, "+")
+}
+
+func c15ModeScanArg(scan []trzsz.VerifModeSrc) string {
+	if len(scan) == 0 {
+		return "-"
+	}
+	parts := make([]string, len(scan))
+	for i, e := range scan {
+		hs := make([]string, len(e.RelPath))
+		for j, n := range e.RelPath {
+			hs[j] = hex.EncodeToString([]byte(n))
+		}
+		d := "0"
+		if e.IsDir {
+			d = "1"
+		}
+		parts[i] = fmt.Sprintf("%d:%s:%s:%d", e.PathID, strings.Join(hs, "/"), d, e.Size)
+	}
+	return strings.Join(parts, ";")
+}
+
+func c15ModeKind(s string) string {
+	switch {
+	case s == "archive" || s == "none" || s == "file" || s == "err" || s == "hang":
+		return s
+	case strings.HasPrefix(s, "err:"):
+		return "err"
+	case strings.HasPrefix(s, "panic"):
+		return "panic"
+	}
+	return "?" + s
+}
+
+func c15ModePlanRes(steps []trzsz.VerifModeStep, panicked string) string {
+	if panicked != "" {
+		return "panic"
+	}
+	if len(steps) == 0 {
+		return "-"
+	}
+	parts := make([]string, len(steps))
+	for i, st := range steps {
+		if st.Nil {
+			parts[i] = "nil"
+			continue
+		}
+		hs := make([]string, len(st.RelPath))
+		for j, n := range st.RelPath {
+			hs[j] = hex.EncodeToString([]byte(n))
+		}
+		b := func(x bool) string {
+			if x {
+				return "1"
+			}
+			return "0"
+		}
+		parts[i] = fmt.Sprintf("%d:%s:%s:%s:%d:%d:%s:%s", st.PathID, strings.Join(hs, "/"), b(st.IsDir), b(st.Archive), st.NSubs, st.Size,
+			c15ModeKind(st.Sender), c15ModeKind(st.Receiver))
+	}
+	return strings.Join(parts, ";")
+}
+
+// c15WireNames: the NAME records the sender wrote and whether it went on with SIZE (a stream) after each
+func c15WireNames(s2r []byte) (flags []bool, isDir []bool, streamed []bool, names []string) {
+	var types, payloads []string
+	for _, ln := range strings.Split(string(s2r), "\n") {
+		ln = strings.TrimSpace(ln)
+		if !strings.HasPrefix(ln, "#") {
+			continue
+		}
+		i := strings.IndexByte(ln, ':')
+		if i < 0 {
+			continue
+		}
+		types = append(types, ln[1:i])
+		payloads = append(payloads, ln[i+1:])
+	}
+	for i, t := range types {
+		if t != "NAME" {
+			continue
+		}
+		js, err := decodeLinePayload(payloads[i])
+		if err != nil {
+			continue
+		}
+		var h c15Hdr
+		if json.Unmarshal(js, &h) != nil {
+			continue
+		}
+		flags = append(flags, h.Archive)
+		isDir = append(isDir, h.IsDir)
+		streamed = append(streamed, i+1 < len(types) && types[i+1] == "SIZE")
+		names = append(names, string(js))
+	}
+	return
+}
+
+func c15Mode(c *ctx, tmp string) {
+	mk := func(rel ...string) []string { return rel }
+	file := func(data string, rel ...string) c15Node { return c15Node{rel: rel, data: []byte(data)} }
+	dir := func(rel ...string) c15Node { return c15Node{rel: rel, dir: true} }
+	_ = mk
+	fixed := map[string][]c15Node{
+		"zero":           {},
+		"one-file":       {file("only content\n", "only.bin")},
+		"one-empty-file": {file("", "zero")},
+		"one-empty-dir":  {dir("nothing-here")},
+		"chain-dirs":     {dir("x"), dir("x", "y"), dir("x", "y", "z")},
+		"chain-file":     {dir("x"), dir("x", "y"), file("deep", "x", "y", "f")},
+		"two":            {file("a", "a"), file("", "b")},
+		"dir+file":       {dir("d"), file("in d\n", "d", "f")},
+	}
+	fixedOrder := []string{"zero", "one-file", "one-empty-file", "one-empty-dir", "chain-dirs", "chain-file", "two", "dir+file"}
+	var sets [][]c15ModeSrc
+	for _, k := range fixedOrder {
+		sets = append(sets, []c15ModeSrc{{name: "根 " + k, nodes: fixed[k]}})
+	}
+	many := func() []c15Node {
+		for {
+			n := c15GenTree(c, 1+c.rng.Intn(3), 2+c.rng.Intn(4), []int{0, 1, 2, 9, 70, 300})
+			if len(n) >= 2 {
+				return n
+			}
+		}
+	}
+	sets = append(sets, []c15ModeSrc{{name: "many", nodes: many()}})
+	// several roots in one transfer: one-entry and zero-entry roots between bigger ones and plain files
+	for i := 0; i < c.pick(10, 150); i++ {
+		k := 2 + c.rng.Intn(4)
+		var set []c15ModeSrc
+		for j := 0; j < k; j++ {
+			nm := fmt.Sprintf("s%d", j)
+			switch c.rng.Intn(8) {
+			case 0, 1:
+				set = append(set, c15ModeSrc{name: nm + ".dat", isFile: true, file: []byte(strings.Repeat("p", c.rng.Intn(40)))})
+			case 2:
+				set = append(set, c15ModeSrc{name: nm, nodes: many()})
+			default:
+				key := fixedOrder[c.rng.Intn(len(fixedOrder))]
+				set = append(set, c15ModeSrc{name: nm + "-" + key, nodes: fixed[key]})
+			}
+		}
+		sets = append(sets, set)
+	}
+	cfgs := []struct {
+		ow    bool
+		proto int
+	}{{false, 4}, {false, 5}, {false, 3}, {false, 2}, {true, 4}}
+	var cases []*c15ModeCase
+	for si, set := range sets {
+		for ci, cf := range cfgs {
+			if si >= 9 && ci != 0 && c.rng.Intn(3) != 0 {
+				continue // the multi-root sets take the archive configuration always, the others now and then
+			}
+			mc := &c15ModeCase{srcs: set, overwrite: cf.ow, proto: cf.proto, dir: filepath.Join(tmp, fmt.Sprintf("mode%d_%d", si, ci))}
+			cases = append(cases, mc)
+		}
+	}
+	parallelDo(len(cases), 16, func(i int) {
+		mc := cases[i]
+		for _, s := range mc.srcs {
+			p := filepath.Join(mc.dir, "src", s.name)
+			if s.isFile {
+				os.MkdirAll(filepath.Dir(p), 0755)
+				os.WriteFile(p, s.file, 0644)
+			} else {
+				c15Materialise(p, s.nodes)
+			}
+			mc.paths = append(mc.paths, p)
+		}
+		func() {
+			defer func() {
+				if r := recover(); r != nil {
+					mc.planPanic = fmt.Sprint(r)
+				}
+			}()
+			mc.scan, _ = trzsz.VerifModeScan(mc.paths)
+			planDest := filepath.Join(mc.dir, "plan-dest")
+			os.MkdirAll(planDest, 0755)
+			mc.steps, mc.planPanic = trzsz.VerifModePlan(mc.paths, planDest, mc.overwrite, mc.proto)
+		}()
+		func() {
+			defer func() {
+				if r := recover(); r != nil {
+					mc.pairPanic = fmt.Sprint(r)
+				}
+			}()
+			dest := filepath.Join(mc.dir, "dest")
+			os.MkdirAll(dest, 0755)
+			mc.pair = trzsz.VerifModePair(mc.paths, dest, mc.overwrite, mc.proto, 2, 20*time.Second)
+			r := mc.pair
+			if r.Hung || r.SendErr != "" || r.RecvErr != "" {
+				mc.pairDiffs = append(mc.pairDiffs, fmt.Sprintf("no-success: hung=%v sender=%q receiver=%q", r.Hung, r.SendErr, r.RecvErr))
+			}
+			if len(r.LocalNames) != len(mc.paths) {
+				mc.pairDiffs = append(mc.pairDiffs, fmt.Sprintf("names-count: receiver saved %v for %d sources", r.LocalNames, len(mc.paths)))
+			}
+			bad := map[string]bool{}
+			for j, p := range mc.paths {
+				var d []string
+				if j < len(r.LocalNames) {
+					d = sameTree(p, filepath.Join(dest, r.LocalNames[j]))
+				} else {
+					d = sameTree(p, filepath.Join(dest, filepath.Base(p))) // a failed recvFiles returns no names; the destination was empty
+				}
+				if len(d) > 0 {
+					if len(bad) == 0 {
+						bad[mc.srcs[j].shape()] = true // the first root that did not arrive names the case; the transfer stops there
+					}
+					mc.pairDiffs = append(mc.pairDiffs, d...)
+				}
+			}
+			var bl []string
+			for k := range bad {
+				bl = append(bl, k)
+			}
+			sort.Strings(bl)
+			mc.failing = strings.Join(bl, "+")
+			if mc.failing == "" {
+				mc.failing = "no-success"
+			}
+		}()
+		os.RemoveAll(mc.dir)
+	})
+	for _, mc := range cases {
+		shapes := mc.shapes()
+		desc := fmt.Sprintf("roots=%s overwrite=%v proto=%d scan=%s", shapes, mc.overwrite, mc.proto, c15ModeScanArg(mc.scan))
+		for _, s := range mc.srcs {
+			c.count("mode:root:" + s.shape())
+		}
+		c.count(fmt.Sprintf("mode:cfg:overwrite=%v,proto=%d", mc.overwrite, mc.proto))
+		b := "0"
+		if mc.overwrite {
+			b = "1"
+		}
+		c.emit(true, "amo_plan", c15ModePlanRes(mc.steps, mc.planPanic), b, fmt.Sprint(mc.proto), c15ModeScanArg(mc.scan))
+		if mc.planPanic != "" {
+			c.violate("mode-panic:"+shapes, "scan / grouping / NAME record panicked or failed", desc+" :: "+mc.planPanic)
+		}
+		for _, st := range mc.steps {
+			if st.Nil {
+				continue
+			}
+			sk, rk := c15ModeKind(st.Sender), c15ModeKind(st.Receiver)
+			if sk != rk {
+				// direct oracle: after the NAME exchange both ends must expect the same thing
+				rootShape := shapes
+				if st.PathID >= 0 && st.PathID < len(mc.srcs) {
+					rootShape = mc.srcs[st.PathID].shape()
+				}
+				c.violate("mode-disagree:"+rootShape, "after the NAME exchange the sender and the receiver are out of step (one streams / expects an archive, the other does not)",
+					fmt.Sprintf("%s :: root=%v entries-below=%d sender=%s receiver=%s NAME=%s", desc, st.RelPath, st.NSubs, st.Sender, st.Receiver, st.Name))
+			}
+		}
+		if mc.pairPanic != "" {
+			c.violate("pair-panic:"+shapes, "sendFiles / recvFiles panicked", desc+" :: "+mc.pairPanic)
+		}
+		if len(mc.pairDiffs) > 0 {
+			c.violate("pair-tree:"+mc.failing, "a whole in-process transfer (real sendFiles against real recvFiles) did not reproduce the source trees",
+				desc+" :: "+strings.Join(mc.pairDiffs, "; "))
+		}
+		flags, isDir, streamed, names := c15WireNames(mc.pair.S2R)
+		for j := range flags {
+			if isDir[j] && flags[j] != streamed[j] {
+				wshape := shapes
+				if j < len(mc.srcs) && !mc.overwrite && mc.proto >= 4 {
+					wshape = mc.srcs[j].shape()
+				}
+				c.violate("mode-disagree-wire:"+wshape, "on the wire: the NAME record's archive flag and what the sender sends next (SIZE = a stream) disagree",
+					fmt.Sprintf("%s :: NAME=%s flag=%v streamed=%v", desc, names[j], flags[j], streamed[j]))
+			}
+		}
+		c.note(true, "mode-pair "+desc)
+	}
+
+	// the same shapes through the real binaries (trz / tsz children, real client filter)
+	type e2eCase struct {
+		key    string
+		nodes  []c15Node
+		upload bool
+		res    e2eResult
+		diffs  []string
+	}
+	var ecs []*e2eCase
+	for _, k := range []string{"zero", "one-file", "one-empty-dir", "chain-file"} {
+		for _, up := range []bool{true, false} {
+			if c.thorough() || c.rng.Intn(2) == 0 || k == "one-file" {
+				ecs = append(ecs, &e2eCase{key: k, nodes: fixed[k], upload: up})
+			}
+		}
+	}
+	ecs = append(ecs, &e2eCase{key: "many", nodes: many(), upload: c.rng.Intn(2) == 0})
+	parallelDo(len(ecs), 12, func(i int) {
+		ec := ecs[i]
+		root := filepath.Join(tmp, fmt.Sprintf("e2e%d", i))
+		top := filepath.Join(root, "s", "root-"+ec.key)
+		c15Materialise(top, ec.nodes)
+		dest := filepath.Join(root, "dest")
+		os.MkdirAll(dest, 0755)
+		cfg := e2eCfg{upload: ec.upload, directory: true, proto: 4, timeout: 5, deadline: 40 * time.Second}
+		func() {
+			defer func() {
+				if r := recover(); r != nil {
+					ec.diffs = append(ec.diffs, fmt.Sprintf("panic: %v", r))
+				}
+			}()
+			ec.res = runTransfer(cfg, []string{top}, dest)
+			r := ec.res
+			shown := r.serverOut
+			if !ec.upload {
+				shown = r.termOut + r.serverOut
+			}
+			names, ok := parseSaved(shown)
+			if !(ok && !r.hung && r.clientDone && r.serverExited && (!ec.upload || r.uploadErr == nil)) {
+				ec.diffs = append(ec.diffs, fmt.Sprintf("no-success: hung=%v clientDone=%v serverExited=%v uploadErr=%v saved=%v tail=%q",
+					r.hung, r.clientDone, r.serverExited, r.uploadErr, ok, tailStr(r.termOut+"|"+r.serverOut, 200)))
+				return
+			}
+			if len(names) != 1 {
+				ec.diffs = append(ec.diffs, fmt.Sprintf("names-count: %v", names))
+				return
+			}
+			ec.diffs = append(ec.diffs, sameTree(top, filepath.Join(dest, names[0]))...)
+		}()
+		os.RemoveAll(root)
+	})
+	for _, ec := range ecs {
+		d := "download"
+		if ec.upload {
+			d = "upload"
+		}
+		c.count("mode:e2e:" + c15Shape(ec.nodes))
+		c.note(true, fmt.Sprintf("mode-e2e %s %s", d, ec.key))
+		if len(ec.diffs) > 0 {
+			c.violate("e2e-tree:"+c15Shape(ec.nodes)+":"+d, "a directory transfer in archive mode through the real binaries did not reproduce the source tree",
+				fmt.Sprintf("%s root with entries %s (protocol 4, -d, no -y) :: %s", d, c15CanonNodes(ec.nodes), strings.Join(ec.diffs, "; ")))
+		}
 	}
 }
